@@ -39,6 +39,46 @@ func registerMisc(reg func(string, intrinsic)) {
 	reg("sort.Slice", sortSlice)
 	reg("sort.SliceStable", sortSlice)
 
+	// strings.ToLower / ToUpper: ASCII case mapping byte by byte; inputs that can
+	// contain bytes >= 0x80 (multi-byte UTF-8 folding) are outside the model.
+	caseMap := func(lower bool) intrinsic {
+		return func(in *Interp, fn *ssa.Function, a []Value) Value {
+			bs := in.bytesOf(a[0])
+			st := in.st
+			out := make([]*Term, len(bs))
+			for i, b := range bs {
+				if b.IsConst() {
+					if b.C >= 0x80 {
+						in.unsupported("strings case mapping on non-ASCII byte")
+					}
+				} else if in.fork2(st.ULe(st.Const(8, 0x80), b)) {
+					in.unsupported("strings case mapping on non-ASCII byte")
+				}
+				if lower {
+					isU := st.And(st.ULe(st.Const(8, 'A'), b), st.ULe(b, st.Const(8, 'Z')))
+					out[i] = st.Ite(isU, st.Add(b, st.Const(8, 32)), b)
+				} else {
+					isL := st.And(st.ULe(st.Const(8, 'a'), b), st.ULe(b, st.Const(8, 'z')))
+					out[i] = st.Ite(isL, st.Sub(b, st.Const(8, 32)), b)
+				}
+			}
+			in.ex.noteStub("strings.ToLower/ToUpper = byte-wise ASCII mapping (non-ASCII input is unsupported, not assumed away)")
+			return in.mkStr(out)
+		}
+	}
+	reg("strings.ToLower", caseMap(true))
+	reg("strings.ToUpper", caseMap(false))
+	reg("(*strings.Builder).copyCheck", func(in *Interp, fn *ssa.Function, a []Value) Value { return nil })
+	reg("(*strings.Builder).String", func(in *Interp, fn *ssa.Function, a []Value) Value {
+		p := a[0].(Ptr)
+		agg, ok := in.load(p).(*Agg)
+		if !ok || len(agg.E) < 2 {
+			in.unsupported("strings.Builder layout")
+		}
+		sl, _ := agg.E[1].(SliceV)
+		return in.mkStr(in.bytesOf(sl))
+	})
+
 	reg("runtime.SetFinalizer", func(in *Interp, fn *ssa.Function, a []Value) Value { return nil })
 	reg("os.Exit", func(in *Interp, fn *ssa.Function, a []Value) Value {
 		in.goPanic("os.Exit called")
